@@ -146,4 +146,66 @@ theorem due_ack_is_emitted (e : End) (he : EInv e) (now : Nat)
       (decodeHdr seg).toOption.map (fun hp => hp.1.getAck) = some (some e.s.recv.ackSeq) :=
   ack_emitted e he now hdue hl
 
+/-! ## Two ends joined by two FIFO queues -/
+
+/-- run a schedule on the monitored link; an operation that fails leaves the link unchanged
+(in particular a refused segment stays at the head of its queue — the GATT glue would tear the
+connection down) -/
+def runLink (l : LMon) : List Op → LMon
+  | [] => l
+  | op :: ops =>
+    match l.step op with
+    | .ok (l', _) => runLink l' ops
+    | .error _ => runLink l ops
+
+def WfSched (ops : List Op) : Prop := ∀ op ∈ ops, WfOp op
+
+/-- two fresh ends: `a` the initiator (GATT central), `b` the responder (peripheral) -/
+def freshLink (relaxedA relaxedB : Bool) (gattA gattB : Option Nat) : LMon :=
+  { a := freshMon true relaxedA gattA, b := freshMon false relaxedB gattB }
+
+theorem linv_fresh (ra rb : Bool) (ga gb : Option Nat) : LInv (freshLink ra rb ga gb) := by
+  refine ⟨minv_fresh _ _ _, minv_fresh _ _ _, ⟨by simp [freshLink, freshMon, Session.fresh], bytes_nil⟩,
+    ⟨by simp [freshLink, freshMon, Session.fresh], bytes_nil⟩, ?_, ?_⟩ <;>
+  · intro seg h; simp [freshLink] at h
+
+/-- **`link_inv`**: the invariant (window accounting `level + ack_level = window`,
+`send level ≤ window`, counters within their 8/16-bit ranges, ring buffer = queue of reassembled
+messages, everything on the wire a byte string) is preserved by every scheduler operation
+`Send | Poll | Deliver | Tick | Fetch` at either end, in every order — for every negotiated MTU
+and window and across sequence-number wrap (the sequence numbers are only constrained `< 256`). -/
+theorem link_inv (ops : List Op) : ∀ (l : LMon), LInv l → WfSched ops → LInv (runLink l ops) := by
+  induction ops with
+  | nil => intro l hl _; exact hl
+  | cons op ops ih =>
+    intro l hl hw
+    have hw' : WfSched ops := fun o h => hw o (List.mem_cons_of_mem _ h)
+    have c := link_step l hl op (hw op List.mem_cons_self)
+    simp only [runLink]
+    cases h : l.step op with
+    | ok r => rw [h] at c; exact ih r.1 c hw'
+    | error f => exact ih l hl hw'
+
+/-- **Between two ends no scheduler operation ever panics**, whatever the schedule so far; and the
+monitored step is the model's `Link.step` (`step_erase`). -/
+theorem link_never_panics (ra rb : Bool) (ga gb : Option Nat) (ops : List Op) (hw : WfSched ops)
+    (op : Op) (hop : WfOp op) :
+    (∃ l' out, (runLink (freshLink ra rb ga gb) ops).erase.step op = .ok (l', out)) ∨
+    (∃ e, (runLink (freshLink ra rb ga gb) ops).erase.step op = .error e ∧ e.isPanic = false) := by
+  have hl := link_inv ops _ (linv_fresh ra rb ga gb) hw
+  have c := link_step _ hl op hop
+  rw [← step_erase]
+  cases h : (runLink (freshLink ra rb ga gb) ops).step op with
+  | ok r => exact .inl ⟨r.1.erase, r.2, rfl⟩
+  | error e => rw [h] at c; exact .inr ⟨e, rfl, c⟩
+
+/-- **Receiving side of "intact, once, in order"** on the link: at either end, after any schedule,
+the `k`-th fetched message is the `k`-th message of the specification-side reassembly of the
+segments that end accepted. -/
+theorem link_delivered_is_reassembly (ra rb : Bool) (ga gb : Option Nat) (ops : List Op) (hw : WfSched ops)
+    (x : Side) (k : Nat) (b : List Nat) (c : Nat)
+    (hk : ((runLink (freshLink ra rb ga gb) ops).get x).fetched[k]? = some (b, c)) :
+    ∃ full, ((runLink (freshLink ra rb ga gb) ops).get x).rs.done[k]? = some full ∧ b = full.take c :=
+  ((link_inv ops _ (linv_fresh ra rb ga gb) hw).get x).1.dlv k b c hk
+
 end C18
